@@ -96,11 +96,36 @@ def level_hits(segs, q):
             return True
         if len(pts) > 2:
             (roots, _d) = oc.deriv_roots([p[1] for p in pts])
-            for r, _ in roots:
-                if 0 < r < 1:
+            for r, simple in roots:
+                if simple and 0 < r < 1:      # a double root of y' is a horizontal inflection, not an extremum: y is monotone through it
                     ye = float(oc.bern([F(p[1]) for p in pts], r))
                     if abs(ye - y) <= 1e-9 * max(1.0, abs(y)):
                         return True
+    return False
+
+
+def inflection_cluster(path, segs, q):
+    """K13 classifier: the query level passes through a horizontal inflection of a curved segment (y' has a double root r in (0,1) and
+    y(r) is the level, 1e-9 relative) AND the library reports that one crossing more than once: two or more crossings of that segment
+    with one of the rays whose parameters lie within 0.2 of r (the triple root of y(t) - level is ill-conditioned for the root finder)"""
+    y = q[1]
+    b = path.bounds()
+    b.addMargin(10)
+    for k, pts in enumerate(segs):
+        if len(pts) < 4:
+            continue
+        roots, _d = oc.deriv_roots([p[1] for p in pts])
+        for r, simple in roots:
+            if simple or not (0 < r < 1):
+                continue
+            ye = float(oc.bern([F(p[1]) for p in pts], r))
+            if abs(ye - y) > 1e-9 * max(1.0, abs(y)):
+                continue
+            s = path.asSegments()[k]
+            for x0 in (b.left, b.right):
+                near = [i.t1 for i in s.intersections(Line(Point(x0, y), Point(*q))) if abs(i.t1 - float(r)) <= 0.2]
+                if len(near) >= 2:
+                    return True
     return False
 
 
@@ -153,6 +178,8 @@ def check_point(spec, q, rng_seed=0):
             return "K1"
         if coincident_crossings(path, q):
             return "K6"
+        if inflection_cluster(path, segs, q):
+            return "K13"
         return msg
     return None
 
@@ -171,6 +198,33 @@ def rand_path_spec(rng, i):
             pts = [(float(rng.randint(-100, 100)), float(rng.randint(-100, 100))) for _ in range(n)]
         pts = [p for k, p in enumerate(pts) if p != pts[k - 1]]
         return {"kind": "contour", "segs": [[pts[k], pts[(k + 1) % len(pts)]] for k in range(len(pts))]}
+    if r == 6 and i % 16 == 6:
+        # a contour one of whose cubics has a horizontal inflection (y = y0 + H/2 + H/2 (2t-1)^3: control ordinates y0, y0+H, y0, y0+H):
+        # the outline crosses the level of the inflection there although the tangent is exactly horizontal
+        x0, y0 = float(rng.randint(40, 160)), float(rng.randint(-50, 50))
+        H = float(2 * rng.randint(20, 120))
+        dx = float(rng.randint(0, 30))
+        cub = [(x0, y0), (x0 + dx, y0 + H), (x0 - dx, y0), (x0, y0 + H)]
+        xl = x0 - float(rng.randint(60, 200))
+        segs = [cub, [(x0, y0 + H), (xl, y0 + H)], [(xl, y0 + H), (xl, y0)], [(xl, y0), (x0, y0)]]
+        if rng.random() < 0.5:
+            segs = [list(reversed(sg)) for sg in reversed(segs)]
+        return {"kind": "contour", "segs": segs, "levels": [y0 + H / 2]}
+    if r == 5:
+        # an arch standing on a box: a cubic (or quadratic) whose y-extreme lies in its interior, its feet lower down; points under the
+        # arch but above the feet see both ends of the segment on one side of their ray
+        x0, y0 = float(rng.randint(-60, 60)), float(rng.randint(-40, 40))
+        w, hgt, dep = float(rng.randint(60, 200)), float(rng.randint(40, 160)), float(rng.randint(20, 80))
+        up = rng.choice([1.0, -1.0])
+        if rng.random() < 0.6:
+            arch = [(x0, y0), (x0 + rng.uniform(-0.2, 0.3) * w, y0 + up * hgt), (x0 + w - rng.uniform(-0.2, 0.3) * w, y0 + up * hgt), (x0 + w, y0)]
+        else:
+            arch = [(x0, y0), (x0 + w / 2 + rng.uniform(-0.3, 0.3) * w, y0 + up * hgt), (x0 + w, y0)]
+        arch = [(float(round(x)), float(round(y))) for x, y in arch]
+        segs = [arch, [arch[-1], (x0 + w, y0 - up * dep)], [(x0 + w, y0 - up * dep), (x0, y0 - up * dep)], [(x0, y0 - up * dep), arch[0]]]
+        if rng.random() < 0.5:
+            segs = [list(reversed(sg)) for sg in reversed(segs)]
+        return {"kind": "contour", "segs": segs}
     if r == 7:
         # doubled contour: the same closed outline traversed twice (K6 family)
         s = cc.rand_shape(rng, simple=True)
@@ -249,9 +303,12 @@ def model_corr(ctx):
     lines, metas = [], []
     which = which_mode()
     for i in range(30 * ctx.scale):
-        spec = rand_path_spec(rng, i)
+        spec = rand_path_spec(rng, 6 if i % 10 == 9 else i)
         path = cc.build(spec)
         q = rand_query(rng, path, rng.randrange(10))
+        if spec.get("levels"):
+            b = path.bounds()
+            q = (rng.uniform(b.left - 80, b.right + 80), rng.choice(spec["levels"]))     # level with a horizontal inflection (F22)
         try:
             lines.append(wire(path, q, which))
             w = path.windingNumberOfPoint(Point(*q))
@@ -309,7 +366,7 @@ def env_hook(name, env, rng, fam):
 
 def search(ctx, budget):
     rng = ctx.rng
-    n = 60 * ctx.scale * budget
+    n = 96 * ctx.scale * budget
     seen = set()
     nontriv = 0
     skipped = {}
@@ -319,7 +376,10 @@ def search(ctx, budget):
         spec = rand_path_spec(rng, i)
         path = cc.build(spec)
         for j in range(6):
-            q = rand_query(rng, path, rng.randrange(10))
+            q = rand_query(rng, path, 5 + j % 2 if j >= 4 else rng.randrange(10))     # the last two: left and right of the bounding box
+            if spec.get("levels") and j < 4:
+                b = path.bounds()
+                q = (rng.uniform(b.left - 80, b.right + 80), rng.choice(spec["levels"]))
             seed = rng.randrange(1 << 30)
             inp = {"spec": spec, "q": list(q), "seed": seed}
             msg = check_point(spec, q, seed)
@@ -335,13 +395,13 @@ def search(ctx, budget):
                 viol.append({"what": msg, "input": inp})
             if len(samples) < 3:
                 samples.append(inp)
-        if len([v for v in viol if v["what"] not in ("K1", "K6")]) >= 5:
+        if len([v for v in viol if v["what"] not in ("K1", "K6", "K13")]) >= 5:
             break
     return {"evaluations": evals, "distinct_nontrivial": nontriv, "skipped": skipped, "samples": samples}, viol
 
 
 def classify(v, entry):
-    return entry["id"] in ("K1", "K6") and v.get("what") == entry["id"]
+    return entry["id"] in ("K1", "K6", "K13") and v.get("what") == entry["id"]
 
 
 def replay(v):
